@@ -7,6 +7,7 @@ CONSTANTS
   MaxLen = 6
   Waits <- W012
   Groups <- G4
+  SampledGroups = {}
   Bars <- Bal2
 INVARIANTS TypeOK BarrierOrder CountersExact Rules EndAfterMemory CompletionOnce
 CHECK_DEADLOCK FALSE
